@@ -533,3 +533,5 @@ func C01Plan() *vlib.Plan {
 	}
 	return p
 }
+
+func newStreamOn(b *netsim.Buf) *stream.Stream { return stream.NewStream(b) }
